@@ -15,7 +15,14 @@ for d in sorted(glob.glob("/verif/seeded/*/")):
     subprocess.run(["git", "-C", "/repo", "worktree", "add", "--detach", wt, "HEAD"], stdout=subprocess.DEVNULL, stderr=subprocess.DEVNULL)
     res = {"seed": name, "properties": {}}
     try:
-        subprocess.run(["git", "apply", d + "patch.diff"], cwd=wt, check=True)
+        a = subprocess.run(["git", "apply", d + "patch.diff"], cwd=wt, stdout=subprocess.PIPE, stderr=subprocess.STDOUT)
+        if a.returncode != 0:
+            a = subprocess.run(["git", "apply", "--3way", d + "patch.diff"], cwd=wt, stdout=subprocess.PIPE, stderr=subprocess.STDOUT)
+        if a.returncode != 0:
+            a = subprocess.run(["patch", "-p1", "--fuzz=3", "-i", d + "patch.diff"], cwd=wt, stdout=subprocess.PIPE, stderr=subprocess.STDOUT)
+        if a.returncode != 0:
+            rows.append("%-8s patch does not apply to the current HEAD: %s" % (name, a.stdout.decode()[-120:].replace(chr(10), " ")))
+            continue
         for p in props:
             pr = subprocess.run(["/verif/check", p, "--jobs", os.environ.get("VERIF_JOBS", "8")], cwd="/verif", env=dict(os.environ, VERIF_REPO=wt),
                                 stdout=subprocess.PIPE, stderr=subprocess.STDOUT)
